@@ -314,3 +314,22 @@ theorem mul_selM_transpose {k : Nat} (idx : Fin k → Fin n) (A : Matrix (Fin m)
   simp [selM, Matrix.mul_apply, Matrix.one_apply]
 
 end MVN
+
+/-! ## list helpers for the shape / permutation theorems of C10 (wave 3) -/
+
+namespace MVN
+
+theorem getD_append_two_left (b : List Nat) (i s a : Nat) (h : a ≤ b.length) :
+    (b ++ [i, s]).getD a 0 = (b ++ [i]).getD a 0 := by
+  simp only [List.getD_eq_getElem?_getD, List.getElem?_append]
+  by_cases hlt : a < b.length
+  · simp [hlt]
+  · have : a = b.length := by omega
+    subst this; simp
+
+theorem take_append_one (mb : List Nat) (n : Nat) : (mb ++ [n]).take ((mb ++ [n]).length - 1) = mb := by simp
+theorem drop_append_one (mb : List Nat) (n : Nat) : (mb ++ [n]).drop ((mb ++ [n]).length - 1) = [n] := by simp
+theorem take_append_two (cb : List Nat) (a c : Nat) : (cb ++ [a, c]).take ((cb ++ [a, c]).length - 2) = cb := by simp
+theorem drop_append_two (cb : List Nat) (a c : Nat) : (cb ++ [a, c]).drop ((cb ++ [a, c]).length - 2) = [a, c] := by simp
+
+end MVN
